@@ -255,6 +255,11 @@ func runLane[C any](s *suite, l Lane[C]) {
 			s.rec.Case(c, o.NonTrivial, cl...)
 			if o.Inconcl != "" {
 				inconcl++
+				r := o.Inconcl
+				if len(r) > 48 {
+					r = r[:48]
+				}
+				s.rec.Class("inconclusive:"+r, 1)
 				lastFail = nil
 				return
 			}
